@@ -196,4 +196,7 @@ __CPROVER_ensures(SM_SQSUM(0) == SM_suf[0])
   }
 }
 #endif
+/* twins for the other spelling of an increment (`++it` for `it++` and vice versa): same effect.  X_inc yields the iterator after the step
+ * (exact); X_postinc made from X_inc is void, so a use of its value does not compile (UNDECIDED) instead of being modelled wrongly */
+#define SiteMapIt_postinc(it_) ((void)SiteMapIt_inc(it_))
 #endif
